@@ -272,6 +272,19 @@ pub fn run_history_on(vd: &VerifDirectory, existing: Option<Index>, ops: &[Op], 
                 drop(writer.take());
             }
             vd.mark("recovered");
+            // A commit that reported an error may or may not have been published (the error can strike after
+            // the atomic replace of meta.json, e.g. in the directory sync that makes it durable): like after a
+            // crash, the state is the previous commit OR the attempted one. Continue from what is really there.
+            if let Some((_, attempted)) = res.attempted.last() {
+                if matches!(op, Op::Commit) {
+                    if let Ok(now) = read_ids(&index) {
+                        if &now == attempted && now != committed {
+                            committed = now;
+                            res.commits.push(CommitRec { call_seq: vd.log_len(), ret_seq: vd.log_len(), opstamp: u64::MAX, content: committed.clone() });
+                        }
+                    }
+                }
+            }
             working = committed.clone();
             if cfg.stop_on_error { break; }
         }
